@@ -742,12 +742,10 @@ coap_path_into_optlist(const uint8_t *s, size_t length, coap_option_num_t optnum
   int num_dots;
   coap_optlist_t **optlist_start;
 
-  if (*optlist_chain) {
-    /* Something previously in optlist_chain. Need to make that the start */
-    optlist_start = &((*optlist_chain)->next);
-  } else {
-    optlist_start = optlist_chain;
-  }
+  /* Anything previously in optlist_chain is not part of the path */
+  optlist_start = optlist_chain;
+  while (*optlist_start)
+    optlist_start = &((*optlist_start)->next);
 
   while (length > 0 && !strnchr((const uint8_t *)"?#", 2, *s)) {
     if (*s == '/') {                /* start of new path element */
